@@ -1,0 +1,76 @@
+//go:build verif
+
+// Contracts for the deductive verification in /verif (govc). Comment-only:
+// with the build tag off this file is not compiled, with it on it declares nothing.
+package safehtml
+
+// ---------------------------------------------------------------------------
+// C05: dynamic CSS values cannot escape their declaration. Specification
+// languages CSS_NAME_SAFE / CSS_VALUE_SAFE in /verif/contracts/lang/css.lang
+// (written from CSS Syntax 3 and the property statement). RE_<var> is the
+// language of the Go regexp literal assigned to <var> (derived on every run);
+// LOWER_<L> its image under ASCII lower-casing.
+
+//@ lemma css_name_lower(x) [C05]: inL(x, LOWER_RE_identifierPattern) ==> inL(x, CSS_NAME_SAFE) by reglang
+//@ func SanitizeCSSProperty [C05]
+//@   ensures inL(result, CSS_NAME_SAFE)
+//@   use return.2: css_name_lower(result)
+
+//@ lemma css_enum_safe(x) [C05]: inL(x, RE_safeEnumPropertyValuePattern) ==> inL(x, CSS_VALUE_SAFE) by reglang
+//@ func sanitizeEnum [C05]
+//@   ensures inL(result, CSS_VALUE_SAFE)
+//@   use return.2: css_enum_safe(s)
+
+//@ lemma css_regular_safe(x) [C05]: inL(x, RE_safeRegularPropertyValuePattern) ==> inL(x, CSS_VALUE_SAFE) by reglang
+//@ func sanitizeRegular [C05]
+//@   ensures inL(result, CSS_VALUE_SAFE)
+//@   use return.2: css_regular_safe(s)
+
+// The dispatcher: whatever sanitiser the table selects, the value is safe.
+//@ func SanitizeCSSValue [C05]
+//@   ensures inL(result, CSS_VALUE_SAFE)
+
+//@ func SanitizeCSS [C05]
+//@   ensures inL(result0, CSS_NAME_SAFE) && inL(result1, CSS_VALUE_SAFE)
+
+// font-family: every comma separated part, trimmed, is a quoted string or a generic family name.
+//@ lemma font_part(a, f, b) [C05]: inL(a, GO_SPACE_STAR) && inL(f, FONT_TRIMMED_OK) && inL(b, GO_SPACE_STAR) ==> inL(cat(a, f, b), FONT_PART_OK) by reglang
+//@ lemma font_quoted(f) [C05]: inL(f, PFX_22) && inL(f, SFX_22) ==> inL(f, FONT_TRIMMED_OK) by reglang
+//@ lemma font_generic(f) [C05]: inL(f, RE_genericFontFamilyName) ==> inL(f, FONT_TRIMMED_OK) by reglang
+//@ lemma font_list_safe(x) [C05]: inL(x, SEPLIST_FONT_PART_OK_2c) ==> inL(x, CSS_VALUE_SAFE) by reglang
+//@ func sanitizeFontFamily [C05]
+//@   ensures inL(result, CSS_VALUE_SAFE)
+//@   loop 1 invariant forall(k, 0, iter, inL(split(s, ",")[k], FONT_PART_OK))
+//@   use loop1.end: font_quoted(f)
+//@   use loop1.end: font_generic(f)
+//@   use loop1.end: font_part(trimLeft(split(s, ",")[iter-1]), f, trimRight(split(s, ",")[iter-1]))
+//@   assume return.3: splitJoin(s, ",", FONT_PART_OK)
+//@   use return.3: font_list_safe(s)
+
+// URLs inside url(...): url.Parse must accept the text, and an absolute URL must have scheme http, https or mailto.
+//@ lemma url_abs_ok(x) [C05]: inL(x, GO_URL_NO_CTL) && (inL(x, GO_URL_SCHEME_http) || inL(x, GO_URL_SCHEME_https) || inL(x, GO_URL_SCHEME_mailto)) ==> inL(x, GO_URL_OK) by reglang
+//@ lemma url_rel_ok(x) [C05]: inL(x, GO_URL_NO_CTL) && !inL(x, GO_URL_HAS_SCHEME) ==> inL(x, GO_URL_OK) by reglang
+//@ func urlIsSafe [C05]
+//@   ensures implies(result, inL(s, GO_URL_OK))
+//@   use exit: url_abs_ok(s)
+//@   use exit: url_rel_ok(s)
+
+// background-image: no '<' or '>' anywhere; every comma separated part, trimmed, is wrapped in one of the three
+// url( ) forms. (What the loop establishes about the text between the wrapper is only urlIsSafe of the stripped
+// text; the scaffolding language BG_PART_OK keeps the wrapper facts.)
+//@ lemma bg_wrapped_dq(f) [C05]: inL(f, PFX_75726c2822) && inL(f, SFX_2229) ==> inL(f, BG_TRIMMED_OK) by reglang
+//@ lemma bg_wrapped_sq(f) [C05]: inL(f, PFX_75726c2827) && inL(f, SFX_2729) ==> inL(f, BG_TRIMMED_OK) by reglang
+//@ lemma bg_wrapped_un(f) [C05]: inL(f, PFX_75726c28) && inL(f, SFX_29) ==> inL(f, BG_TRIMMED_OK) by reglang
+//@ lemma bg_part(a, f, b) [C05]: inL(a, GO_SPACE_STAR) && inL(f, BG_TRIMMED_OK) && inL(b, GO_SPACE_STAR) ==> inL(cat(a, f, b), BG_PART_OK) by reglang
+//@ lemma bg_list_safe(x) [C05]: inL(x, SEPLIST_BG_PART_OK_2c) && inL(x, NONE_OF_3c3e_STAR) ==> inL(x, CSS_VALUE_SAFE) by reglang
+//@ func sanitizeBackgroundImage [C05]
+//@   ensures inL(result, CSS_VALUE_SAFE)
+//@   loop 2 unroll
+//@   loop 1 invariant forall(k, 0, iter, inL(split(v, ",")[k], BG_PART_OK))
+//@   let T = u @ before urlIsSafe#1
+//@   use loop1.end: bg_wrapped_dq(trimmed(split(v, ",")[iter-1]))
+//@   use loop1.end: bg_wrapped_sq(trimmed(split(v, ",")[iter-1]))
+//@   use loop1.end: bg_wrapped_un(trimmed(split(v, ",")[iter-1]))
+//@   use loop1.end: bg_part(trimLeft(split(v, ",")[iter-1]), trimmed(split(v, ",")[iter-1]), trimRight(split(v, ",")[iter-1]))
+//@   assume return.3: splitJoin(v, ",", BG_PART_OK)
+//@   use return.3: bg_list_safe(v)
